@@ -112,3 +112,22 @@ Definition violations (cs : list dom_case) : list (N * list clause) :=
    measured on the Go side; here only the number of accepted cases is recomputed *)
 Definition accepted (cs : list dom_case) : N :=
   N.of_nat (length (filter (fun c => match case_diag c with [] => true | _ => false end) cs)).
+
+(* ------------------------------------------------------------------ sampled tie for one huge function
+   NOT tree_check: for a function far beyond the block limit only sampled ordered pairs (b, c) are read from the
+   API, together with the positions of b and c in DomPreorder / DomPostorder, and only necessary conditions that
+   need no graph search are evaluated:
+     SRoot     the entry block dominates every (reachable) block          [Graphs.dominates_root]
+     SRefl     every block dominates itself                               [Graphs.dominates_refl]
+     SInterval Dominates(b,c) = (pre b <= pre c /\ post c <= post b) with pre/post = positions in the listings
+               (what tree_check_exact gives for an exact observation: ex_interval)
+     SAntisym  two different blocks do not dominate each other            [Graphs.dominates_antisym] *)
+Record sample := mkS { s_b : N; s_c : N; s_dom : bool; s_preb : N; s_prec : N; s_postb : N; s_postc : N }.
+Inductive sclause := SRoot (c : N) | SRefl (b : N) | SInterval (b c : N) | SAntisym (b c : N).
+Definition sample_diag (root : N) (l : list sample) : list sclause :=
+  flat_map (fun s =>
+    (if (s_b s =? root) && negb (s_dom s) then [SRoot (s_c s)] else []) ++
+    (if (s_b s =? s_c s) && negb (s_dom s) then [SRefl (s_b s)] else []) ++
+    (if Bool.eqb (s_dom s) ((s_preb s <=? s_prec s) && (s_postc s <=? s_postb s)) then [] else [SInterval (s_b s) (s_c s)]) ++
+    (if s_dom s && negb (s_b s =? s_c s) &&
+        existsb (fun t => (s_b t =? s_c s) && (s_c t =? s_b s) && s_dom t) l then [SAntisym (s_b s) (s_c s)] else [])) l.
